@@ -167,7 +167,7 @@ fn field_job(seed: u64, idx: usize, tier: Tier) -> Outcome {
     let mut r = Prng::new(seed ^ (idx as u64).wrapping_mul(0x9E37_79B9_7F4A_7C15) ^ 0xC12);
     let site = format!("{}::{}", f.ty, f.name);
     let len = f.min_len + 8;
-    let fills = tier.pick(2, 8);
+    let fills = tier.pick(4, 10);
     let mut backgrounds: Vec<Vec<u8>> = vec![vec![0u8; len], vec![0xffu8; len]];
     for _ in 0..fills {
         backgrounds.push(r.bytes(len));
